@@ -250,6 +250,8 @@ struct Prepared
 {
   quill::MacroMetadata const* md{nullptr};
   bool dynamic_level{false};                    // log_statement<false, true>: the level travels at the end of the record
+  bool runtime_md{false};                       // logged the way LOG_RUNTIME_METADATA does: file, line, function as three more
+                                                // arguments behind separators, event LogWithRuntimeMetadata (implies dynamic_level)
   quill::LogLevel level{quill::LogLevel::Info}; // level the sink must see
   // per argument: call-site texts of the elements of an unordered container (empty vector for other arguments)
   std::vector<std::vector<std::string>> uelems;
@@ -1108,7 +1110,9 @@ struct Stmt
           cx.abandon(p); // size accounting already failed: logging it would trip quill's assert / desynchronise
           return;
         }
-        bool const ok = p->dynamic_level
+        bool const ok = p->runtime_md
+          ? cx.logger->template log_statement<false, true>(p->level, p->md, s.arg()..., "fmtcat_rt.cpp", 4711, "rt_fn")
+          : p->dynamic_level
           ? cx.logger->template log_statement<false, true>(p->level, p->md, s.arg()...)
           : cx.logger->template log_statement<false, false>(quill::LogLevel::None, p->md, s.arg()...);
         cx.after_log(p, ok);
